@@ -18,6 +18,7 @@ RULE = ("for each diagram (standard line/bar plot, obsfcst, qq, scatter, cond, f
 ASSUMPTIONS = ["figures are checked through matplotlib's object model (Agg backend), not pixels",
                "decorations (confidence bands, reference lines, labels) are not part of the property"]
 REQUIRED_COUNTERS = ["figures", "series_compared", "points_compared", "bin_conservation_checks"]
+ROTATE_TZ = True       # dates, times of day and time labels are UTC whatever the time zone of the machine
 ANCHOR_FUNCS = ["Output.plot"]
 TIMEOUT = {"quick": 1500, "thorough": 7200}
 
@@ -644,6 +645,9 @@ def done(ctx, diagram, argv, kind, F, distinct):
 
 def make(rng, kind, F=None):
     F = F or rng.choice([1, 2, 2, 3])
+    if kind == "ens":
+        return gen.make_dataset(rng, n_inputs=F, ens=True, members=3, miss=rng.choice([0.0, 0.1]), sparse=0.0, max_t=4, max_l=4, max_s=3,
+                                vrange=(0, 14), fmt="text")
     if kind == "prob":
         return gen.make_dataset(rng, n_inputs=F, prob=True, pit=True, miss=rng.choice([0.0, 0.1]), sparse=0.0,
                                 thresholds=[0.0, 5.0, 10.0], quantiles=[0.1, 0.5, 0.9], max_t=6, max_l=5, max_s=4, vrange=(0, 14))
@@ -668,6 +672,8 @@ def run_shard(desc, ctx):
     for name in desc["diagrams"]:
         for ci in range(desc["n"]):
             kind = "prob" if (name in c16_more.PROB or name in ("pithist", "reliability", "discrimination", "roc")) else rng.choice(["det", "prob"])
+            if name in c16_more.ENS:
+                kind = "ens"
             ds = make(rng, kind, F=c16_more.FIXED_F.get(name))
             if kind == "prob":
                 boost_p1(rng, ds)
